@@ -92,6 +92,9 @@ class ProgressViewBase(Table):
         batchtimemean, batchtimevar = 0, 0
         batchratemean, batchratevar = 0, 0
 
+        # N.B., a table with no rows at all (not even a header) is passed
+        # through like any other, reporting 0 rows
+        n = 0
         for n, r in enumerate(self.inner):
             if n % self.batchsize == 0 and n > 0:
                 batchn += 1
